@@ -9,6 +9,7 @@ import (
 	"bufio"
 	"bytes"
 	"errors"
+	"fmt"
 	"io"
 	"os"
 	"strings"
@@ -17,13 +18,34 @@ import (
 // ErrInjected is the injected I/O error.
 var ErrInjected = errors.New("injected I/O fault")
 
+// timeoutErr is a net.Error-style temporary timeout
+type timeoutErr struct{}
+
+func (timeoutErr) Error() string   { return "i/o timeout (injected)" }
+func (timeoutErr) Timeout() bool   { return true }
+func (timeoutErr) Temporary() bool { return true }
+
+// FaultErrs are the error values a Source can fail with: an ordinary error, errors that loaders might be
+// tempted to treat as "end of data" (io.ErrUnexpectedEOF, an error wrapping io.EOF), a closed pipe, a timeout.
+var FaultErrs = map[string]error{
+	"":               ErrInjected,
+	"unexpected-eof": io.ErrUnexpectedEOF,
+	"wrapped-eof":    fmt.Errorf("read tcp 10.0.0.1:443: %w", io.EOF),
+	"closed-pipe":    io.ErrClosedPipe,
+	"timeout":        timeoutErr{},
+}
+
+// FaultErrNames in a fixed order.
+var FaultErrNames = []string{"", "unexpected-eof", "wrapped-eof", "closed-pipe", "timeout"}
+
 type Source struct {
 	Data          []byte
-	Tail          int64 // lazily generated payload bytes following Data
-	Sizes         []int // segment sizes, cycled; nil = deliver as requested
-	FaultAt       int64 // < 0: none
-	FaultWithData bool  // the call reaching FaultAt returns its bytes together with the error
-	DataWithEOF   bool  // the final bytes are returned together with io.EOF
+	Tail          int64  // lazily generated payload bytes following Data
+	Sizes         []int  // segment sizes, cycled; nil = deliver as requested
+	FaultAt       int64  // < 0: none
+	FaultWithData bool   // the call reaching FaultAt returns its bytes together with the error
+	FaultErr      string // key into FaultErrs ("" = ErrInjected)
+	DataWithEOF   bool   // the final bytes are returned together with io.EOF
 
 	Pos        int64
 	Calls      int
@@ -38,6 +60,9 @@ func New(data []byte) *Source { return &Source{Data: data, FaultAt: -1} }
 
 func (s *Source) total() int64 { return int64(len(s.Data)) + s.Tail }
 
+// Err returns the error value this source fails with.
+func (s *Source) Err() error { return FaultErrs[s.FaultErr] }
+
 // TailByte is the deterministic content of the lazy payload.
 func TailByte(i int64) byte { return byte(i*7+i>>9) | 1 }
 
@@ -47,7 +72,7 @@ func (s *Source) Read(p []byte) (int, error) {
 		return 0, nil
 	}
 	if s.failed {
-		return 0, ErrInjected
+		return 0, s.Err()
 	}
 	limit := s.total()
 	if s.FaultAt >= 0 && s.FaultAt < limit {
@@ -56,7 +81,7 @@ func (s *Source) Read(p []byte) (int, error) {
 	if s.Pos >= limit {
 		if s.FaultAt >= 0 && s.Pos >= s.FaultAt {
 			s.failed = true
-			return 0, ErrInjected
+			return 0, s.Err()
 		}
 		return 0, io.EOF
 	}
@@ -94,7 +119,7 @@ func (s *Source) Read(p []byte) (int, error) {
 		if s.FaultAt >= 0 && s.Pos >= s.FaultAt {
 			if s.FaultWithData {
 				s.failed = true
-				return n, ErrInjected
+				return n, s.Err()
 			}
 		} else if s.DataWithEOF {
 			return n, io.EOF
